@@ -7,7 +7,7 @@ cd "$(dirname "$0")/.."
 V=$(pwd)
 W=/var/tmp/battery
 rm -rf $W; mkdir -p $W
-ls -d seeded/${PAT}*-* | sort > $W/all.txt
+if echo "$PAT" | grep -q " \|-"; then for x in $PAT; do ls -d seeded/$x; done | sort > $W/all.txt; else ls -d seeded/${PAT}*-* | sort > $W/all.txt; fi
 for i in $(seq 1 $N); do
   mkdir -p $W/v$i
   rsync -a --exclude .git --exclude replays "$V/" $W/v$i/
@@ -33,7 +33,8 @@ for i in $(seq 1 $N); do
   run_part $i $W/part0$((i-1)) > $W/out$i.txt 2>&1 &
 done
 wait
-cat $W/out*.txt | sort > "$V/seeded/BATTERY.txt"
+cat $W/out*.txt | sort > "$V/seeded/BATTERY.partial.txt"
+if [ "$PAT" = "C" ]; then cp "$V/seeded/BATTERY.partial.txt" "$V/seeded/BATTERY.txt"; fi
 for i in $(seq 1 $N); do git -C /repo worktree remove --force $W/r$i; done
 rm -rf $W
-grep -c detected "$V/seeded/BATTERY.txt"; grep -v ' detected$' "$V/seeded/BATTERY.txt"
+grep -c detected "$V/seeded/BATTERY.partial.txt"; grep -v ' detected$' "$V/seeded/BATTERY.partial.txt"
